@@ -3,6 +3,7 @@
 #include "apbp_spec.h"
 #include "apbp_contracts.h"
 #include "common.h"
+#include "spec_touch.h"
 int verif_outcome;
 int ghost_data_irq[3];
 int ghost_sem_irq;
